@@ -286,6 +286,28 @@ Definition node_for_atomic : bool :=
 Definition node_identity_ok : bool :=
   spairs_eqb node_fields expected_node_fields && spairs_eqb node_allocs expected_node_allocs && node_for_atomic.
 
+(** ** C07: "Open is invoked at most once on a File" across fidRefs.
+    C07_open_once is about ONE fidRef (its openMu, its opened flag).  Two fidRefs may stand for one File only
+    when one BORROWS the other's (Txattrwalk: [file: ref.file]); such a fidRef must never become openable:
+    its literal sets neither [mode] (so CanOpen(mode) is false: Tlopen is refused before File.Open) nor
+    [opened] / [openFlags], and no assignment outside the literals gives a fidRef a mode, an opened flag or a
+    File except the ones listed (the attach root's mode from GetAttr; Tlopen's own flag and flags, under openMu).
+    Every other literal is given a File that was just obtained from the backend (a local variable). *)
+Definition borrows_file (e : string) : bool :=
+  (* a selector x.file: the File of an existing fidRef *)
+  let n := String.length e in
+  (5 <=? n)%nat && String.eqb (String.substring (n - 5) 5 e) ".file".
+Definition open_owner_lit_ok (l : string * string * list string) : bool :=
+  let '(_, file, fields) := l in
+  if borrows_file file
+  then negb (existsb (fun f => String.eqb f "mode" || String.eqb f "opened" || String.eqb f "openFlags") fields)
+  else negb (existsb (fun c => Ascii.eqb c (Ascii.ascii_of_nat 46)) (list_ascii_of_string file)).   (* no '.': a plain local, the File just obtained *)
+Definition expected_ref_field_writes : list (string * string) :=
+  [("tattach.handle", "mode"); ("tlopen.handle", "opened"); ("tlopen.handle", "openFlags")].
+Definition open_owner_ok : bool :=
+  forallb open_owner_lit_ok fidref_literals &&
+  spairs_eqb ref_field_writes expected_ref_field_writes.
+
 (** ** C16: reference counts of fidRefs reached through the path tree.  A fidRef stays registered in its parent's
     [childRefs] until its destructor (count reached 0: File.Close, then removeChild) has finished, and no lock
     covers that window (Tclunk takes no rename lock).  So a fidRef found by ranging over [childRefs] (rename and
